@@ -397,3 +397,62 @@ def gen_topology(rng, ground=None, perturb=True, curves=True):
             w['tag'] = t if rng.random() < 0.5 else None
     media = None if not ground else []
     return dict(f=f, wires=wires, media=media, family='graph', tagmode=mode, sources=[], loads=[])
+
+def gen_geometry(rng):
+    """Objects of every kind with tapers (all types, with/without limits),
+    and random sequences of keyed rotations/translations (tagged/untagged)
+    and scalings, for the segmentation stage. All objects get explicit tags."""
+    k = rng.randint(1, 4)
+    objs = []
+    for i in range(k):
+        kind = rng.choice(['wire', 'wire', 'taper', 'taper', 'arc', 'helix'])
+        tag = i + 1
+        if kind in ('wire', 'taper'):
+            n = rng.randint(1, 12) if kind == 'wire' else rng.randint(2, 12)
+            p1 = [rng.uniform(-5, 5) for _ in range(3)]
+            d = _unit(rng); L = 10 ** rng.uniform(-1, 1.5)
+            p2 = _add(p1, d, L)
+            r = L / n / rng.choice([10, 30, 100, 1000])
+            w = wire(n, p1, p2, r, tag=tag)
+            if kind == 'taper':
+                tp = rng.choice([1, 2, 3])
+                tmin = tmax = None
+                u = rng.random()
+                if u < 0.3:
+                    tmax = L / n * rng.uniform(1.05, 3)
+                elif u < 0.5:
+                    tmin = L / n * rng.uniform(0.05, 0.6)
+                elif u < 0.65:
+                    tmin = L / n * rng.uniform(0.05, 0.6); tmax = L / n * rng.uniform(1.05, 3)
+                w['taper'] = [tp, tmin, tmax]
+            objs.append(w)
+        elif kind == 'arc':
+            a1 = rng.choice([0.0, 30.0, -45.0, rng.uniform(-180, 180)])
+            objs.append(dict(type='arc', nseg=rng.randint(3, 12), radius=10 ** rng.uniform(-1, 1), ang1=a1,
+                             ang2=a1 + rng.choice([90.0, 180.0, 360.0, rng.uniform(10, 360)]), r=0.001, tag=tag))
+        else:
+            tl = 10 ** rng.uniform(-1, 0) * rng.choice([1, -1])
+            turns = rng.choice([1.0, 2.0, 0.5, rng.uniform(0.5, 3)])
+            ln = abs(tl) * turns * rng.choice([1, -1])
+            n = max(3, int(math.ceil(turns * 3)) + rng.randint(0, 8))
+            rx1 = 10 ** rng.uniform(-1.5, 0); ry1 = rx1 * rng.choice([1.0, 1.0, 1.5])
+            rx2 = rng.choice([None, rx1 * 1.7]); ry2 = None if rx2 is None else ry1 * 1.3
+            objs.append(dict(type='helix', nseg=n, length=ln, turnlen=tl, r=0.001, rx1=rx1, ry1=ry1, rx2=rx2, ry2=ry2, tag=tag))
+    transforms = []
+    for _ in range(rng.choice([0, 1, 2, 3, 4])):
+        key = float(rng.choice([0, 1, 1, 2, 3, 5]))
+        tg = rng.choice([None, None, rng.randint(1, k)])
+        if rng.random() < 0.5:
+            v = [rng.choice([0.0, 90.0, rng.uniform(-180, 180)]) for _ in range(3)]
+            if rng.random() < 0.5:
+                j = rng.randrange(3); v = [v[i] if i == j else 0.0 for i in range(3)]
+            transforms.append(dict(op='rotate', key=key, v=v, tag=tg))
+        else:
+            transforms.append(dict(op='translate', key=key, v=[rng.uniform(-3, 3) for _ in range(3)], tag=tg))
+    # main() applies transformations sorted by key (stable); gen.build applies them in list order
+    order = sorted(range(len(transforms)), key=lambda i: transforms[i]['key'])
+    scales = []
+    for _ in range(rng.choice([0, 0, 1, 2])):
+        scales.append(dict(factor=10 ** rng.uniform(-1, 1), tag=rng.choice([None, None, rng.randint(1, k)])))
+    return dict(f=10.0, wires=objs, media=None, family='geometry', tagmode='explicit', sources=[], loads=[],
+                transforms_unsorted=transforms, transforms=[transforms[i] for i in order], scales=scales)
